@@ -36,6 +36,14 @@ Proof. exact constant_image_constant_blocks. Qed.
 Theorem C13_block_count : forall (X : Type) (bw bh : nat) (d : X), (1 <= bw)%nat -> (1 <= bh)%nat -> forall (w : nat) (img : list (list X)), (1 <= w)%nat ->
   length (image_blocks X bw bh d w img) = ((w + bw - 1) / bw * ((length img + bh - 1) / bh))%nat.
 Proof. exact block_count. Qed.
+(* exact positions: position (i, j) of block (bx, by) holds pixel (min(bx*4 + j, w - 1), y) of the surface, y = by*4 + i if
+   that row exists and otherwise the first row of the incomplete group (src_row / src_col) *)
+Theorem C13_block_pixel : forall (X : Type) (bw bh : nat) (d : X), (1 <= bw)%nat -> (1 <= bh)%nat ->
+  forall (w : nat) (img : list (list X)), (1 <= w)%nat -> Forall (fun r => length r = w) img ->
+  forall by_ bx i j : nat, (by_ < (length img + bh - 1) / bh)%nat -> (bx < (w + bw - 1) / bw)%nat -> (i < bh)%nat -> (j < bw)%nat ->
+  nth j (nth i (nth (by_ * ((w + bw - 1) / bw) + bx) (image_blocks X bw bh d w img) []) []) d
+  = nth (src_col bw w bx j) (nth (src_row X bh img by_ i) img []) d.
+Proof. exact block_pixel. Qed.
 Example C13_blocks_ex : image_blocks nat 2 2 0%nat 3 [[1; 2; 3]; [4; 5; 6]; [7; 8; 9]]%nat
   = [[[1; 2]; [4; 5]]; [[3; 3]; [6; 6]]; [[7; 8]; [7; 8]]; [[9; 9]; [9; 9]]]%nat.
 Proof. reflexivity. Qed.
@@ -44,5 +52,5 @@ Example C13_ex : bc1_lut true 63488 2016 = bc1_lut false 63488 2016.
 Proof. reflexivity. Qed.
 
 Definition C13_all := (C13_mode_independent_when_c0_gt_c1, C13_three_colour_lut, C13_index3_unused_agree, C13_f13_power_iteration_start_is_annihilated,
-  C13_blocks_hold_image_pixels, C13_constant_image_constant_blocks, C13_block_count).
+  C13_blocks_hold_image_pixels, C13_constant_image_constant_blocks, C13_block_count, C13_block_pixel).
 Redirect "props/C13.assumptions" Print Assumptions C13_all.
